@@ -1,6 +1,8 @@
 package main
 
 import (
+	"path/filepath"
+	"os/exec"
 	"archive/tar"
 	"bytes"
 	"context"
@@ -183,6 +185,66 @@ func (h *hist) c07Check() {
 		return
 	}
 	R := len(recs)
+	// the command itself: `stfs recovery index` (defaults: record 0, block 0, no overwrite) into a new metadata file, into the index of a
+	// prefix and into the complete index has to end with the filesystem of a from-scratch rebuild (plain and compression-only
+	// configurations: key files are not needed)
+	if cli := filepath.Join(verifRoot, "bin", "stfs"); h.cfg.Enc == "" && h.cfg.Sig == "" && !h.cfg.TapeMode {
+		if _, err := os.Stat(cli); err == nil {
+			for _, j := range []int{0, R / 2, R} {
+				d := h.w.NewDir("c07cli")
+				_ = os.MkdirAll(tapeDir(d), 0o777)
+				drive := tapeDir(d) + "/drive.tar"
+				switch {
+				case j == R:
+					if err := copyFile(h.rig.DB, d+"/index.sqlite"); err != nil {
+						h.res.Verdict, h.res.Msg = "inconclusive", err.Error()
+						return
+					}
+				case j > 0:
+					if err := os.WriteFile(drive, img[:recs[j].Off], 0o666); err != nil {
+						h.res.Verdict, h.res.Msg = "inconclusive", err.Error()
+						return
+					}
+					prg, err := NewRig(d, h.cfg)
+					if err != nil {
+						h.res.Verdict, h.res.Msg = "inconclusive", "rig: "+err.Error()
+						return
+					}
+					ierr := runIndex(prg, true)
+					prg.Close()
+					if ierr != nil {
+						os.RemoveAll(d)
+						continue
+					}
+				}
+				if err := os.WriteFile(drive, img, 0o666); err != nil {
+					h.res.Verdict, h.res.Msg = "inconclusive", err.Error()
+					return
+				}
+				args := []string{"recovery", "index", "-d", drive, "-m", d + "/index.sqlite", "-z", fmt.Sprint(h.cfg.RS), "-v", "0"}
+				if h.cfg.Comp != "" {
+					args = append(args, "-c", h.cfg.Comp)
+				}
+				h.ops = append(h.ops, Op{K: "cli-recovery-index", N: j})
+				if outb, err := exec.Command(cli, args...).CombinedOutput(); err != nil {
+					h.violate("cli|error", "`stfs %s` over an index of the first %d of %d records fails: %v: %s", strings.Join(args, " "), j, R, err, clip(string(outb), 300))
+					return
+				}
+				t, err := walkVia(h.w, h.cfg, d, true, "c07cliw")
+				if err != nil {
+					h.violate("cli|open", "opening the filesystem over the index that `stfs recovery index` produced (index of the first %d of %d records before): %v", j, R, err)
+					return
+				}
+				if ds := DiffTrees(ref, t, "scratch", "stfs recovery index", true); len(ds) > 0 {
+					h.violate("cli|differs", "`stfs recovery index` over an index of the first %d of %d records does not converge to the from-scratch rebuild: %s", j, R, shortList(ds, 5))
+					return
+				}
+				h.res.count("cli_replays_checked", 1)
+				os.RemoveAll(d)
+			}
+			h.ops = h.ops[:len(h.ops)-0]
+		}
+	}
 	var js []int
 	maxAll := 15
 	if h.w.Tier == "thorough" {
@@ -361,6 +423,11 @@ func witnessCases(prop string) []Case {
 			mk("zero-time-chtimes", Cfg{Level: "fastest", RS: 20, WC: "file"}, []Op{{K: "create", A: "/f", Len: 3, Dist: "text", DSeed: 1}, {K: "chtimes", A: "/f", N: -62135596800}}),
 			mk("non-utf8-name-embedded-header", Cfg{Enc: "age", Level: "fastest", RS: 20, WC: "file"}, []Op{{K: "mkdir", A: "/caf{E9}-latin1", Perm: 0o755}}), // {E9} stands for the byte 0xE9 (the case list travels as JSON)
 		}
+	case "C07":
+		// the tape starts as what `tar cf x.tar top` writes (directory entries carry a trailing slash): open finding
+		pb, _ := json.Marshal(seqP{Cfg: Cfg{Level: "fastest", RS: 20, WC: "file"}, Witness: "foreign-root-replay", Root: "top/", RootFmt: "pax",
+			Ops: []Op{{K: "mkdir", A: "/d", Perm: 0o755}, {K: "create", A: "/d/f", Len: 5, Dist: "text", DSeed: 1}}})
+		return []Case{{ID: "c07-witness-foreign-root-replay", Seed: 1, Kind: "witness:foreign-root-replay", P: pb}}
 	case "C02":
 		return []Case{
 			mk("codec-suffix-name", Cfg{Comp: "gzip", Level: "fastest", RS: 20, WC: "file"}, []Op{{K: "create", A: "/x.gz", Len: 5, Dist: "text", DSeed: 1}}),
